@@ -73,8 +73,57 @@ impl Drop for EnvGuard {
     }
 }
 
+/// `( 20 path env .. )`: site 0 (FileAppender) built 60 times, each in a fresh directory, while ANOTHER thread keeps
+/// setting (to the case's value) and removing the FIRST variable of `env`.  Result ( 5 ( relpath ... ) ): the distinct
+/// locations at which the file appeared (or "?" where none / several did).
+fn run_flapping(c: &[Val]) -> Val {
+    use std::sync::atomic::{AtomicBool, Ordering};
+    let path = text_of(&c[1]);
+    let mut names = vec![];
+    for kv in c[2].l() {
+        let kv = kv.l();
+        std::env::set_var(text_of(&kv[0]), text_of(&kv[1]));
+        names.push(text_of(&kv[0]));
+    }
+    let first = c[2].l()[0].l();
+    let (fk, fv) = (text_of(&first[0]), text_of(&first[1]));
+    let _guard = EnvGuard(names);
+    let stop = std::sync::Arc::new(AtomicBool::new(false));
+    let st = stop.clone();
+    let flapper = std::thread::spawn(move || {
+        while !st.load(Ordering::Relaxed) {
+            std::env::remove_var(&fk);
+            std::env::set_var(&fk, &fv);
+        }
+    });
+    let mut seen: Vec<String> = vec![];
+    for _ in 0..60 {
+        let root = tempfile::tempdir().expect("tempdir");
+        let full = format!("{}/{}", root.path().to_str().expect("utf8 temp root"), path);
+        let built = FileAppender::builder().build(full);
+        drop(built);
+        let mut files = vec![];
+        list_files(root.path(), &mut files);
+        let at = if files.len() == 1 {
+            files[0].strip_prefix(root.path()).expect("below root").to_str().unwrap_or("?").to_string()
+        } else {
+            "?".to_string()
+        };
+        if !seen.contains(&at) {
+            seen.push(at);
+        }
+    }
+    stop.store(true, Ordering::Relaxed);
+    let _ = flapper.join();
+    seen.sort();
+    Val::L(vec![Val::N(5), Val::L(seen.iter().map(|p| cps_of(p)).collect())])
+}
+
 fn run(case: &Val) -> Val {
     let c = case.l();
+    if c[0].n() == 20 {
+        return run_flapping(c);
+    }
     let rel = c[0].n() >= 10;
     let site = c[0].n() % 10;
     let path = text_of(&c[1]);
